@@ -244,6 +244,9 @@ void harness(void)
 #  ifdef SINGLE_DOMAIN
   VP_ASSERT(domains_eq(&A, &B), "the legacy domain directive does not override an existing search list");
 #  endif
+  /* a lookup/hostresorder line naming no recognised source is a malformed line: it must not erase the established order
+   * (it either replaces it by a valid order, checked below, or leaves it) */
+  if (OWN == 2) VP_ASSERT(A.lookups != NULL, "a lookup line never erases an established lookup order");
 #endif
 
   /* owned field well-formed */
